@@ -123,8 +123,10 @@ func (c *Channel) Close() error {
 
 	// Drain any pending requests.
 	go func() { c.wg.Wait(); close(c.rsp) }()
-	for range c.rsp {
-		// discard
+	for next := range c.rsp {
+		if next.rsp != nil {
+			next.rsp.Body.Close() // discard
+		}
 	}
 	return nil
 }
